@@ -112,10 +112,11 @@ def evaluate(ctx, cases):
         conforming = "A" not in st and "bad-op" not in st
         ctx.dist["conforming" if conforming else "violating"] += 1
         if conforming and len(c["ops"]) >= 6 and any(o.startswith("E:") for o in c["ops"]): ctx.nontrivial(" ".join(c["ops"]))
-        if "MISMATCH" in i:
-            ctx.fail("C11:end-differs-from-rule", "end(out) passed on a rule different from rule(), or the accessors disagree", c, {"impl": i[:2000]})
-        # oracle: up to the first op the spec refuses, the implementation must show the spec's rule
+        # oracle: up to the first op the spec refuses (a history outside the documented protocol from there on), the accessors must agree
+        # with what end() passes on, and the implementation must show the spec's rule
         k = st.index("A") if "A" in st else len(st)
+        if any("MISMATCH" in t for t in it[:k]):
+            ctx.fail("C11:end-differs-from-rule", "end(out) passed on a rule different from rule(), or the accessors disagree", c, {"impl": i[:2000]})
         if it[:k] != st[:k]:
             j = next(x for x in range(min(k, len(it)) + 1) if x >= len(it) or x >= k or it[x] != st[x])
             ctx.fail("C11:rule-differs", "the builder reports a rule different from the one described (op #%d)" % j, c,
